@@ -158,11 +158,25 @@ pub struct Ctx {
     pub t0: f64,
     /// wall-clock budget of this shard in seconds (a cap, never a verdict input)
     pub budget_s: f64,
+    /// end of the current phase (a preliminary workload gets a share of what is left, so that it cannot use up the
+    /// budget of the workloads after it); f64::MAX outside phases
+    pub phase_deadline: f64,
 }
 
 impl Ctx {
     pub fn time_left(&self) -> bool {
-        util::now_s() - self.t0 < self.budget_s
+        let now = util::now_s();
+        now - self.t0 < self.budget_s && now < self.phase_deadline
+    }
+    /// The workload that follows may use at most `share` of the time that is left.
+    pub fn begin_phase(&mut self, share: f64) -> f64 {
+        let now = util::now_s();
+        let end = self.t0 + self.budget_s;
+        self.phase_deadline = now + (end - now).max(0.0) * share;
+        self.phase_deadline
+    }
+    pub fn end_phase(&mut self) {
+        self.phase_deadline = f64::MAX;
     }
     pub fn shard_seed(&self) -> u64 {
         util::fnv_mix(util::fnv_mix(self.seed, 0x5151 + self.shard as u64), util::hash_str(&self.prop))
